@@ -12,10 +12,11 @@ Record sops (T : Type) := {
   sdiv : T -> T -> T; ssqrt : T -> T;
   sltb : T -> T -> bool; sleb : T -> T -> bool; seqb : T -> T -> bool;
   sabs : T -> T;
+  snormal : T -> bool;      (* f64::is_normal: neither zero, subnormal, infinite nor NaN *)
 }.
 Arguments s0 {T}. Arguments s1 {T}. Arguments sadd {T}. Arguments smul {T}. Arguments ssub {T}.
 Arguments sopp {T}. Arguments sdiv {T}. Arguments ssqrt {T}. Arguments sltb {T}. Arguments sleb {T}.
-Arguments seqb {T}. Arguments sabs {T}.
+Arguments seqb {T}. Arguments sabs {T}. Arguments snormal {T}.
 
 Section Cplx.
 Context {T : Type} (O : sops T).
